@@ -21,7 +21,7 @@ func init() { register(c06{}) }
 
 func (c06) ID() string { return "C06" }
 func (c06) Rule() string {
-	return "values: every location of gen.Universe(L<=6,arity<=3) and seeded locations built with the public constructors (Join/Order/.Complement/PartialRange; depth<=3, 1..5 parts, incl. abutting, duplicate, overlapping and single-base parts): AsLocation(v.String()) must succeed, print identically and have equal atoms (residues, sites, strand, ambiguity) and open-end markers. strings: printed values, the legacy trailing '>' spelling, 1-3 character mutations of printed values, and random strings over the location alphabet: for every accepted string print(parse(s)) must be a fixed point of parse-then-print. text: expressions assembled by the harness over pairwise separated leaves (points, between-sites, partial ranges, ambiguous spans; join/order/complement nested up to depth 3, members in any order): AsLocation(text) must denote exactly what the expression says (the model reads it off a literal value no library constructor touched): same residues, sites, strands, order, open-end markers, join vs order; and its print must read back to the same. reduction: for raw part lists P (abutting, duplicate, single-base, zero-length, complemented members) Join(P...) and Order(P...) must denote the same set of residues in the same order of first occurrence, on the same strands, as the concatenation of the members. non-trivial: a list location, a partial end, or a string that is not a printed value; distinct: canonical case text. Every harness-written location text is also read from the location column of a GenBank record: on one line / continued behind each comma, LF / CRLF, the record delivered whole / byte by byte / with a 4096-byte read boundary at every offset of the text; each spelling must denote what the text denotes. The text stands in the first or in a later feature of the table."
+	return "values: every location of gen.Universe(L<=6,arity<=3) and seeded locations built with the public constructors (Join/Order/.Complement/PartialRange; depth<=3, 1..5 parts, incl. abutting, duplicate, overlapping and single-base parts): AsLocation(v.String()) must succeed, print identically and have equal atoms (residues, sites, strand, ambiguity) and open-end markers. strings: printed values, the legacy trailing '>' spelling, 1-3 character mutations of printed values, and random strings over the location alphabet: for every accepted string print(parse(s)) must be a fixed point of parse-then-print. text: expressions assembled by the harness over pairwise separated leaves (points, between-sites, partial ranges, ambiguous spans; join/order/complement nested up to depth 3, members in any order): AsLocation(text) must denote exactly what the expression says (the model reads it off a literal value no library constructor touched): same residues, sites, strands, order, open-end markers, join vs order; and its print must read back to the same. reduction: for raw part lists P (abutting, duplicate, single-base, zero-length, complemented members) Join(P...) and Order(P...) must denote the same set of residues in the same order of first occurrence, on the same strands, as the concatenation of the members. non-trivial: a list location, a partial end, or a string that is not a printed value; distinct: canonical case text. Every harness-written location text is also read from the location column of a GenBank record: on one line / continued behind each comma, LF / CRLF, the record delivered whole / byte by byte / with a 4096-byte read boundary at every offset of the text; each spelling must denote what the text denotes. The text stands in the first or in a later feature of the table. Member lists end in runs of complemented members (also behind joins); Join of one literal join prints like Join of its members."
 }
 func (c06) RequiredBuckets(tier string) []string {
 	out := []string{"value:roundtrip", "string:accepted", "string:rejected", "string:legacy-gt", "string:mutated", "string:random", "reduce:join", "reduce:order",
@@ -296,6 +296,17 @@ func (m c06) checkReduce(c *fw.Ctx, members []gts.Location, order bool) {
 		return
 	}
 	c.Hold(enc, func() string { return model.SafeString(res) + " " + model.PartsString(model.Parts(res)) })
+	if !order && len(members) > 1 {
+		// the same members handed over as one literal join: Join reduces what is
+		// inside a single argument as it reduces a list of arguments.
+		var one gts.Location
+		if p, _, _, _ := fw.Guard(func() { one = gts.Join(gts.Joined(append([]gts.Location(nil), members...))) }); !p {
+			if a, b := model.SafeString(res), model.SafeString(one); a != b {
+				c.Violate("reduce:join-of-one-literal-join-differs-from-join-of-its-members", enc, a, b)
+				return
+			}
+		}
+	}
 	if bad := model.HasBad(obs); bad != "" && model.HasBad(exp) == "" {
 		c.Violate("reduce:malformed:"+bad, enc, model.PartsString(exp), model.PartsString(obs))
 		return
@@ -345,10 +356,16 @@ func mutateLocString(r *rand.Rand, s string) string {
 }
 
 func rawMembers(r *rand.Rand, L int) []gts.Location {
-	k := 1 + r.Intn(5)
+	k := 1 + r.Intn(6)
 	out := make([]gts.Location, 0, k)
 	o := gen.LocOpt{L: L, MaxParts: 3, MaxDepth: 1, Ambiguous: true, Sites: true, Overlap: true}
 	allComp := r.Intn(5) == 0
+	// a run of complemented members behind other members (behind a join that
+	// ends on the reverse strand, now and then).
+	compFrom := k
+	if r.Intn(3) == 0 {
+		compFrom = r.Intn(k)
+	}
 	var prev gts.Location
 	for i := 0; i < k; i++ {
 		var l gts.Location
@@ -380,7 +397,7 @@ func rawMembers(r *rand.Rand, L int) []gts.Location {
 			l = gen.RandLeaf(r, 0, L, o)
 		}
 		prev = l
-		if allComp || r.Intn(10) == 0 {
+		if allComp || i >= compFrom || r.Intn(10) == 0 {
 			l = l.Complement()
 		}
 		out = append(out, l)
